@@ -94,9 +94,17 @@ def _norm(a):
 class System(object):
     # {path, trajectory} x {list of matrices, positions + quaternions} and a
     # path / trajectory holding its matrices as one (n, 4, 4) array
-    n_inits = 6
+    # ... and a single-pose trajectory / a two-pose path (constructed that
+    # way, not reduced to it)
+    n_inits = 8
 
     def initial(self, i):
+        if i >= 6:
+            k = 1 if i == 6 else 2
+            ts = INIT_T[:k] if i == 6 else None
+            obj = common.make_traj(INIT_R[:k], INIT_P[:k], ts,
+                                   "quat" if i == 6 else "se3")
+            return State(obj, INIT_R[:k], INIT_P[:k], ts)
         with_stamps = i in (2, 3, 5)
         mode = ("se3" if i % 2 == 0 else "quat") if i < 4 else "arr"
         obj = common.make_traj(INIT_R, INIT_P,
@@ -536,9 +544,10 @@ def run(ctx):
     acc.counters["evaluations"] = acc.counters["transitions"]
     acc.rule = (
         "BFS over all histories of depth <= %d over %d operations (%s) from "
-        "6 initial objects {PosePath3D, PoseTrajectory3D} x {list of matrices, "
+        "8 initial objects: {PosePath3D, PoseTrajectory3D} x {list of matrices, "
         "one (n,4,4) array, "
-        "positions+quaternions} with 4 poses, and to depth 2 (3) from two "
+        "positions+quaternions} with 4 poses, a single-pose trajectory and a "
+        "two-pose path, and to depth 2 (3) from two "
         "16-pose trajectories; states de-duplicated by (class, which "
         "cached views exist, projected flag, pose content rounded to 1e-9, "
         "timestamps); after every transition all views, check() and derived "
